@@ -18,7 +18,8 @@ RegexOf(A) == Level1(A) \cup {Cat(x, y) : x \in A, y \in Level1(A)} \cup {Alt(x,
               \cup {Cat(Bol, Cat(x, Eol)) : x \in Level1(A)}
               \cup {Cat(Wb, x) : x \in A} \cup {Cat(x, Wb) : x \in A}
 
-PlainQ == {<<"a">>, <<"A", "K">>, <<"KELVIN">>, <<"a", "DOT", "K">>, <<"LONGS", "e">>, <<"e", "1">>, <<"K", "e", "e">>}
+\* a slash on one side only does not make a regular expression: such a pattern is plain (and equals no path)
+PlainQ == {<<"SLASH", "a">>, <<"a", "SLASH">>, <<"SLASH">>, <<"SLASH", "K", "e">>, <<"a">>, <<"A", "K">>, <<"KELVIN">>, <<"a", "DOT", "K">>, <<"LONGS", "e">>, <<"e", "1">>, <<"K", "e", "e">>}
 PlainT == PlainQ \cup {<<"SIGMA">>, <<"fsigma", "a">>, <<"a", "US", "K">>, <<"s", "DOT", "S", "DOT", "a">>, << >>}
 
 MCPatsQ == {RePat(r) : r \in RegexOf(AtomsOf(LitCharsQ, ClsQ))} \cup {PlainPat(p) : p \in PlainQ}
